@@ -57,7 +57,7 @@ func worlds() []*wm.World {
 	wls := []wm.Workload{
 		{Kind: "Deployment", NS: "ns1", Name: "w1", Labels: map[string]string{"app": "a"}, Ports: []wm.CPort{{Name: "http", Num: 80}}, Replicas: 1},
 		{Kind: "Deployment", NS: "ns1", Name: "w2", Labels: map[string]string{"app": "b"}, Ports: []wm.CPort{{Name: "http", Num: 8080}}, Replicas: 2},
-		{Kind: "StatefulSet", NS: "ns2", Name: "w3", Labels: map[string]string{"app": "a"}, Replicas: 1},
+		{Kind: "StatefulSet", NS: "ns2", Name: "w1", Labels: map[string]string{"app": "a"}, Replicas: 1},
 	}
 	np := wm.NP{NS: "ns1", Name: "p", PodSel: *wm.ML("app", "a"), Types: []string{"Ingress", "Egress"},
 		Ingress: []wm.NPRule{{Peers: []wm.NPPeer{{Pod: wm.ML("app", "b")}, {CIDR: "10.0.0.0/8", Except: []string{"10.1.0.0/16"}}}, Ports: []wm.NPPort{{HasPort: true, Name: "http"}}}},
